@@ -80,7 +80,7 @@ def _config(draw, cap=160):
     nsteps = draw(st.integers(3, 6 if slow else 12))
     against = draw(st.sampled_from([False, False, True]))
     terminal = draw(st.sampled_from([False, False, True]))
-    return dict(part="faults", method=method, dtype="float64", prob=prob, y0=draw(PR.state(prob["shape"])), t0=t0, tf=t0 + direction * L,
+    return _with_dense_for_kick(dict(part="faults", method=method, dtype="float64", prob=prob, y0=draw(PR.state(prob["shape"])), t0=t0, tf=t0 + direction * L,
                 dt=L / nsteps, rtol=1e-6, atol=1e-6, dense=draw(st.booleans()) or (against and draw(st.booleans())), callbacks=draw(st.booleans()),
                 events=draw(st.sampled_from(([[], [], [0.37], [0.37, 0.62]] if not against else [[], [0.37], [0.37, 0.62], [0.62]]) if not terminal else [[0.37], [0.37, 0.62], [0.62], [0.37, 0.81]])), user_jac=draw(st.booleans()),
                 fault=draw(st.sampled_from(["rotate", "rotate", "rotate", "custom", "runtime", "zerodiv", "keyboard", "nested"])), cap=cap,
@@ -88,12 +88,38 @@ def _config(draw, cap=160):
                 second=draw(st.sampled_from([0, 0, 1, 2, 5, 17])), against_span=against, noop_first=draw(st.sampled_from([False, False, True])),
                 # the last event is terminal: the run ends with the re-integration up to it (a nested integrate call), whose
                 # user calls are crash points like any other
-                terminal=terminal)
+                terminal=terminal,
+                # a forcing term that switches on sharply in the middle of the span: the error controller rejects a step well
+                # after the start of the run (smooth problems have their only rejections in the very first step), so crash points
+                # fall into RE-ATTEMPTS of a step
+                kick=(dict(at=draw(st.sampled_from([0.45, 0.6, 0.72])), amp=draw(st.sampled_from([4.0, 20.0, -8.0])), width=draw(st.sampled_from([0.004, 0.012])))
+                      if (fam in ("embedded", "implicit_embedded", "richardson") and draw(st.sampled_from([True, True, False]))) else None)))
+
+
+def _with_dense_for_kick(case):
+    if case.get("kick"):
+        case["dense"] = True       # (what a re-attempted step leaves behind shows in the first dense-output piece after the resume)
+    return case
 
 
 def parts(tier):
     q = tier == "quick"
     return [Part("faults", strategy=_config(cap=160 if q else 1200), examples=48 if q else 600, timeout=900 if q else 3600)]
+
+
+class Kicked(object):
+    """f(t, y) + amp (1 + tanh((t - tc) / width)) / 2 in every component: smooth, but switching on within a few widths"""
+
+    def __init__(self, f, tc, amp, width):
+        self.f0, self.tc, self.amp, self.width = f, tc, amp, width
+        self.shape, self.n, self.p = f.shape, f.n, f.p
+
+    def __call__(self, t, y, **kw):
+        out = self.f0(t, y)
+        return out + np.asarray(self.amp * 0.5 * (1.0 + np.tanh((float(t) - self.tc) / self.width)), dtype=out.dtype)
+
+    def jac(self, t, y, **kw):
+        return self.f0.jac(t, y)
 
 
 class Harness(object):
@@ -108,6 +134,8 @@ class Harness(object):
         self.log = []          # (kind, committed samples at call time)
         self.a = None
         f = PR.Prog(case["prob"])
+        if case.get("kick"):
+            f = Kicked(f, case["t0"] + case["kick"]["at"] * (case["tf"] - case["t0"]), case["kick"]["amp"], case["kick"]["width"])
         self.f = f
         outer = self
 
@@ -202,6 +230,7 @@ def check(case):
     fam = M.family(M.get(method))
     attrs = dict(method=method, family=fam, fault=case["fault"])
     labels = ["family:" + fam, "fault:" + case["fault"], "dense:on" if case["dense"] else "dense:off", "events:{}".format(len(case["events"])),
+              "forcing_switched_on_mid_span" if case.get("kick") else "smooth_problem",
               "callbacks:on" if case["callbacks"] else "callbacks:off", "backward" if case["tf"] < case["t0"] else "forward"] + (["call_against_declared_span"] if case.get("against_span") else [])
     sig = fam
     tier_cap = case.get("cap", 160)
@@ -219,6 +248,14 @@ def check(case):
     y_ref = np.asarray(ref.a.y).copy()
     ev_ref = [float(e.t) for e in ref.a.events]
     log = list(ref.log)
+    # how many rhs calls each step of the reference run took (keyed by the number of samples committed at call time): a later
+    # step that took at least twice as many as the cheapest one was attempted more than once
+    per_step = {}
+    for kind_, n_ in log:
+        if kind_ == "rhs" and n_ >= 2:
+            per_step[n_] = per_step.get(n_, 0) + 1
+    if per_step and max(per_step.values()) >= 2 * min(per_step.values()):
+        labels.append("a_later_step_was_attempted_more_than_once")
     if len(t_ref) > 400 or E > 6000:
         return [], dict(nontrivial=False, labels=labels + ["skipped:too_long"])
     ks, exhaustive = _points(E, n_construct + 1, tier_cap)
